@@ -151,6 +151,16 @@ func genXO(r *Rand, tier string, emit func(string)) {
 		idx := metaStream(buildIndex(0, nil, n, 0, 0, false, 0), 1)
 		e(append(append([]byte{}, idx...), buildFooter(uint64(len(idx)))...))
 	}
+	// declared counts that are consistent AMONG THEMSELVES (totals large enough for the declared
+	// number of records) while the records are absent: memory must follow the input, not the header
+	for _, n := range []uint64{1 << 16, 1 << 20, 1 << 22, 1 << 25} {
+		for _, f := range []uint64{5, 6, 1000} {
+			idx := metaStream(buildIndex(0, nil, n, f*n, f*n, false, 0), 1)
+			e(append(append([]byte{}, idx...), buildFooter(uint64(len(idx)))...))
+			idx = metaStream(buildIndex(0, []idxRec{{9, 3}}, n, f*n, f*n, false, 0), 1)
+			e(append(append([]byte{0, 0, 0, 0xff, 0xff, 0, 0, 0xff, 0xff}, idx...), buildFooter(uint64(len(idx)))...))
+		}
+	}
 	n := 400
 	if thorough {
 		n = 8000
